@@ -1664,7 +1664,7 @@ def run(ctx):
                                     "equal"), ("interleaving", "random-3"))
 
     # 3. all routes against each other on random specs
-    n_specs = 26 if quick else 150
+    n_specs = 26 if quick else 110
     for k in range(n_specs):
         spec = gen_spec(rng, quick)
         routes = list(ALL_ROUTES)
@@ -1697,7 +1697,7 @@ def run(ctx):
 
     # 4b. histories that change the content (partial subsample, partial filter) against a fresh construction
     #     of the content they reached
-    for k in range(240 if quick else 800):
+    for k in range(190 if quick else 800):
         spec = core.gen_spec(rng, max_n=4, max_m=4, classes=("count", "smallcount"))
         run_pair(ctx, pair_case(spec, rng.choice(CHANGING_ROUTES), None, rng.choice(["dense", "csr", "lol_coo_zeros", "csc"]),
                                 gen_steps(rng, rng.choice([0, 0, 1, 2])), "equal", exports=(k % 10 == 0)),
@@ -1727,7 +1727,7 @@ def run(ctx):
     #      norm / pa / rankdata / subsample, on both axes, in place and not: the result is compared FIRST (before
     #      anything could read nnz) with an independent construction of the same dense content, both ways, and with
     #      its own copy()
-    for k in range(150 if quick else 1500):
+    for k in range(150 if quick else 700):
         spec = core.gen_spec(rng, max_n=4, max_m=4, classes=[("smallcount",), ("smallcount", "count"), VALUE_CLASSES][k % 3],
                              density=rng.choice([0.6, 0.8, 1.0]))
         axis = ["observation", "sample"][k % 2]
@@ -1742,7 +1742,7 @@ def run(ctx):
     # 4d3. histories that must be the identity on content — selection of everything with the IDs given in every
     #      order and container kind, reordering into the current order, renaming IDs to themselves, transposing
     #      twice, ... — against an untouched, independently built twin
-    for k in range(170 if quick else 1500):
+    for k in range(170 if quick else 700):
         spec = gen_spec(rng, quick, nonuniform=(k % 4 == 0))
         if k % 3 == 0:
             spec["omd"] = core.gen_md(rng, spec["obs"], kind="mixed")
@@ -1835,7 +1835,7 @@ def run(ctx):
     #     '%', quotes, U+2028/2029/0085, form feed ...; the same names on both axes; partially annotated axes;
     #     denormals, integers above 2**24 and arbitrary bit patterns as values (a difference of one ulp must show)
     import math
-    for k in range(60 if quick else 900):
+    for k in range(60 if quick else 400):
         n, m = rng.randint(2, 4), rng.randint(2, 4)
         pool = core.twin_ids(rng, 2) + rng.sample(core.NASTY_TEXTS, 4)
         rng.shuffle(pool)
@@ -1926,7 +1926,7 @@ def run(ctx):
         ctx.count("single-difference=add_metadata", 2)
 
     # 5. single-difference pairs
-    for k in range(320 if quick else 2500):
+    for k in range(270 if quick else 1800):
         spec = gen_spec(rng, quick)
         kind, other = mutate(rng, spec)
         if kind is None:
@@ -1941,7 +1941,7 @@ def run(ctx):
             run_pair(ctx, pair_case(other, rb, spec, ra, st, "differs"), ("single-difference", "mutation=" + kind))
 
     # 6. kernel level: dataEq vs the real _data_equality, eliminateZeros vs scipy's eliminate_zeros
-    for k in range(600 if quick else 12000):
+    for k in range(450 if quick else 8000):
         run_kernel(ctx, gen_kernel_case(rng), ("kernel",))
 
     state_cases("late")
